@@ -180,8 +180,28 @@ func TestC05History(t *testing.T) {
 		twinAfterHit, repeats, forgedAfter := false, 0, 0
 		var trace []string
 		for s := 0; s < steps; s++ {
-			action := rapid.IntRange(0, 9).Draw(t, "action")
+			action := rapid.IntRange(0, 11).Draw(t, "action")
 			var d drawnMsg
+			if action >= 10 && len(pool) > 0 {
+				// the same history independence for validation without the chain (announced key only):
+				// a stripped form of an earlier message, possibly re-keyed and re-signed by its sender
+				src := pool[rapid.IntRange(0, len(pool)-1).Draw(t, "psrc")]
+				it := makeItem(t, fmt.Sprintf("pit%d", s), w, src, rapid.Bool().Draw(t, "prekey"))
+				_, werr := warm.PartiallyValidateMessage(context.Background(), clonePartial(it.pm))
+				fresh := newParticipant(t, w, lookback, 0, 0)
+				fresh.VerifSetProgress(cur.ID, cur.Round, cur.Phase)
+				_, ferr := fresh.PartiallyValidateMessage(context.Background(), clonePartial(it.pm))
+				if wc, fc := classify(werr), classify(ferr); wc != fc {
+					vev.Fail(t, c05, "C05/history/partial-warm-differs-from-fresh", "step %d: partial validation (key %s) on the warm participant says %s (%v), on a fresh one %s (%v); msg=%v progress=%+v; trace=%v", s, it.keyOp, wc, werr, fc, ferr, describeMsg(it.pm.GMessage), cur, trace)
+				}
+				if c, ok := w.Committees[it.pm.Vote.Instance]; ok && werr == nil {
+					if v := vref.ValidatePartial(w.NN, c, it.pm.GMessage, [32]byte(it.pm.VoteValueKey)); !v.Valid {
+						vev.Fail(t, c05, "C05/validate/partial-unsound-accept", "step %d: partial validation accepted a message the reference rejects (%s); key %s; trace=%v", s, v.Reason, it.keyOp, trace)
+					}
+				}
+				trace = append(trace, fmt.Sprintf("partial(%s|%s)->%s", it.op, it.keyOp, classify(werr)))
+				continue
+			}
 			switch {
 			case action == 0:
 				cur = drawProgress(t, "cur", first, n)
